@@ -312,12 +312,27 @@ func c12Audit(run *vlib.Run, phase string) {
 			}
 		}
 	}
-	for _, sp := range []string{"sparc64", "riscv64", "loong64", "wasm", "x86", "x86-64", "amd64 ", " amd64", "arm64be", "i686", "x64"} {
+	// names (uname -m, GOARCH, Debian, audit and toolchain spellings) of architectures for which the package has no
+	// table: unsupported, in any letter case
+	for _, name := range c12TablelessNames {
+		for _, sp := range []string{name, strings.ToUpper(name), mixedCase(name)} {
+			info, err := arch.GetInfo(sp)
+			evals++
+			run.Count("tableless_architecture_names_offered", 1)
+			if err == nil || info != nil {
+				run.Violation("tableless-arch-accepted", fmt.Sprintf("GetInfo(%q) returns the %s table, but that name denotes an architecture without a syscall table", sp, info.Name), map[string]any{"check": "C12", "alias": sp})
+			}
+		}
+	}
+	// other spellings of architectures that do have tables: not documented aliases, so they may be refused; if one is
+	// accepted it must be that architecture's table
+	for sp, canon := range map[string]string{"i686": "i386", "i586": "i386", "i486": "i386", "x86-64": "x86_64", "x64": "x86_64", "amd64 ": "x86_64", " amd64": "x86_64",
+		"armv7l": "arm", "armv6l": "arm", "armhf": "arm", "armel": "arm", "armv8": "aarch64", "arm64e": "aarch64"} {
 		info, err := arch.GetInfo(sp)
 		evals++
 		run.Count("alias_lookups", 1)
-		if err == nil || info != nil {
-			run.Violation("unknown-arch-accepted", fmt.Sprintf("GetInfo(%q) returns a table", sp), map[string]any{"check": "C12", "alias": sp})
+		if err == nil && info != byName[canon] {
+			run.Violation("nickname-resolves-to-other-table", fmt.Sprintf("GetInfo(%q) returns the %s table; that name denotes %s", sp, info.Name, canon), map[string]any{"check": "C12", "alias": sp})
 		}
 	}
 	if info, err := arch.GetInfo(""); err != nil || info != arch.X86_64 {
@@ -382,4 +397,18 @@ func c12Finish(run *vlib.Run) {
 	}
 	run.Finish(evals, int64(len(distinct)),
 		"exhaustive over the five tables: every (number, name) row checked for inversion both ways, uniqueness of the name, and equality with every oracle source listing the name; 16 architecture ids and 29 AUDIT_ARCH names against linux/audit.h; 22 alias keys x 3 letter cases + unknown names; N fresh processes dumping all lookups must agree byte for byte; the whole audit is repeated after compilations, dumps, syscall extractions (known and unknown numbers, five architectures) and alias lookups ran in the same process, and the table digest must be unchanged; distinct = (table, name) pairs")
+}
+
+// c12TablelessNames: spellings of architectures for which the package has no syscall table.
+var c12TablelessNames = []string{
+	// big-endian ARM (AUDIT_ARCH_ARMEB) as uname -m and toolchains call it
+	"armeb", "armv4b", "armv4tb", "armv5b", "armv5teb", "armv5tejb", "armv6b", "armv7b", "armv8b", "armbe", "armebv7r",
+	"aarch64_be", "aarch64be", "arm64be", "arm64_be",
+	// GOARCH values without tables
+	"mips", "mipsle", "mips64", "mips64le", "mips64p32", "mips64p32le", "ppc", "ppc64", "ppc64le", "riscv", "riscv64", "s390", "s390x", "sparc", "sparc64", "loong64", "wasm", "amd64p32", "armbe",
+	// uname -m / Debian / kernel names
+	"mipsel", "mips64el", "mipsn32", "mipsn32el", "powerpc", "powerpc64", "powerpc64le", "ppc64el", "ppcle", "riscv32", "loongarch64", "loongarch32", "alpha", "ia64", "m68k", "sh", "sh4", "sh4eb", "sh64",
+	"parisc", "parisc64", "hppa", "hppa64", "cris", "frv", "m32r", "xtensa", "arc", "arceb", "microblaze", "microblazeel", "nios2", "openrisc", "or1k", "csky", "hexagon", "tile", "tilegx", "unicore32", "c6x", "h8300", "nds32", "e2k", "avr32", "blackfin", "metag", "score", "um", "wasm32", "wasm64",
+	// audit names of the package's own constants without tables
+	"mipsel64", "mipsel64n32", "mips64n32", "shel", "shel64",
 }
